@@ -1,5 +1,6 @@
 #!/bin/bash
 # tools/sweep.sh <tier> "<seeds>" [ids...]  : run checks for several seeds, print one line per run
+[ -n "$VP_RUN_REPO" ] && export VMON_REPO="$VP_RUN_REPO"
 tier="${1:-quick}"; seeds="${2:-0 1 2 7 12345}"; shift 2
 ids="$@"
 [ -z "$ids" ] && ids=$(python3 -c "import json;print(' '.join(c['property_id'] for c in json.load(open('MANIFEST.json'))['checks']))")
